@@ -280,7 +280,9 @@ def _anonymize_value(raw_val, lookup, reserved_words, salt):
         anon_val = b2a_hex(anon_val.encode()).decode()
 
     if item_format == _sensitive_item_formats.md5:
-        old_salt_size = len(val.split("$")[2])
+        # md5-crypt salts are at most 8 characters; a longer (malformed) salt
+        # must not make passlib raise and abort the file
+        old_salt_size = min(len(val.split("$")[2]), 8)
         # Not salting sensitive data, using static salt here to more easily
         # identify anonymized lines
         anon_val = md5_crypt.using(salt="0" * old_salt_size).hash(anon_val)
